@@ -35,10 +35,15 @@ CHECKS = {
          "Seeded search over benefit schedules and options (dim 1-4, margin, rebalancing, safety factor, versions). After every refinement step: tiling without gaps/overlaps in ascending order, shared end-point levels, end points level 0, binary level tree (also after rebalancing), coarsening level = lmax - max level >= 0, lmax >= deepest level, and the set of split intervals equals the prediction {benefit >= margin * max benefit} computed from the benefits read before the step (children = two halves at the midpoint). Sampling, not proof.",
          "Trusted: harness monitors. Stubs: error-estimator answers (the seam the property quantifies over), integrand values, clock.",
          "DESIGN.md section 5, C06"),
+ "C07": ("extendsplit_sim", "exploration",
+         "deterministic simulation: the real extend-split loop driven by simulated benefit answers (zeros, ties, single area), area monitor after every evaluation and refinement step",
+         "Seeded search over extend-split histories (dim 2-3, versions 0-2, splits before extend, automatic decision, single-dimension splitting, boundary on/off). After every step: leaves are boxes inside the domain, pairwise disjoint interiors, volumes sum to the domain, every refined leaf is tiled by its children, coarsening >= 0, seeded points (interior, faces, corners, domain boundary) are assigned to exactly one containing leaf, per leaf the computed component grids have coefficient sum 1 at every grid point, and __call__ reproduces a hash-valued function at leaf grid points not shared with another leaf. Known findings are keyed by version/lmin class, boundary flag and failing function.",
+         "Trusted: harness monitors. Stubs: error-estimator answers, integrand values, clock. The library's own error-estimate machinery (parent split/extend operations) runs as real code.",
+         "DESIGN.md section 5, C07"),
 }
 
 _P = "claimed by DESIGN.md but the check is not built yet in this tree; listed here until its engine is registered"
-PENDING = {k: _P for k in ["C05", "C07", "C12", "C13", "C14", "C15", "C17", "C18", "C19"]}
+PENDING = {k: _P for k in ["C05", "C12", "C13", "C14", "C15", "C17", "C18", "C19"]}
 
 def main():
     checks = []
